@@ -1,15 +1,220 @@
-import SSV.Model.Stats
+import SSV.Proofs.StatsSeq
 /-
-C14 — property theorems (first cut; extended below as the proofs land).
+C14 — Traffic statistics neither lose nor invent traffic and charge the right user.
+
+Setting (SSV.Model.Stats): a configuration is the shared collector state plus a pool of threads, one per
+call of the `stats.Collector` interface (`Op`): Collect* calls execute the regenerated programs
+`Gen.collectTCPSession` …, Snapshot / SnapshotAndReset execute `Gen.snapshot` / `Gen.snapshotAndReset` on
+the anonymous collector and then, under the read lock, on every user collector. `Step` lets any thread
+execute its next atomic operation; `Reach (initCfg ops) cfg` therefore ranges over every interleaving of
+every pool `ops` (any number of calls, users, snapshots), including unfinished ones.
+Counters are `uint64`: all sums are stated modulo `M = 2^64`, together with `≤`, which makes them exact
+whenever the recorded total itself fits in 64 bits.
 -/
 namespace SSV.C14
 open SSV.Stats SSV.Gen.C14
 
-/-- `GET /servers/{s}/users/{u}` shows the entry of `u` in the snapshot (zero figures when `u` has no entry),
-not the server totals. False of the pinned tree (finding F10), true after proposed_fixes/F10.diff. -/
-theorem api_user_projection (r : Result) (u : String) : projectUser r u = lookupUser r.users u := by
-  simp [projectUser, getUserProjection]
+/-- The regenerated programs have the shape the invariants need: Collect* bodies are atomic adds only,
+`snapshotAndReset` is one `Swap(0)` per counter stored under the counter's own name, `snapshot` only loads,
+`Traffic.Add` adds field by field, Snapshot/SnapshotAndReset have the aggregation shape of `parseAgg`. -/
+theorem gen_ok : GenOK ∧ parseAgg SnapshotAndReset = some ⟨.snapshotAndReset, .snapshotAndReset⟩ ∧
+    parseAgg Snapshot = some ⟨.snapshot, .snapshot⟩ ∧
+    -- serverCollector.userCollector: look-up under the read lock; if absent: write lock, look-up AGAIN,
+    -- create and store only if still absent, unlock. This is what makes "create if absent" one atomic
+    -- step (`CStage.create`) that never replaces an existing collector.
+    userCollector = [.rlock, .lookup, .runlock, .skipIfSet 6, .lock, .lookup, .skipIfSet 2, .create, .store, .unlock, .ret] :=
+  ⟨genOK, shape_reset, shape_plain, by decide⟩
+
+/-- One Collect* call is worth exactly what the `stats.Collector` documentation says, counter by counter:
+the sum of the arguments of its atomic adds on counter `f` is `specDelta` (no crossed up/down fields or
+arguments anywhere between the public method and the atomic add). -/
+theorem collect_effect (c : Call) (x0 x1 : Nat) (f : Field) :
+    pendPc f (collectPc c x0 x1) = specDelta c x0 x1 f :=
+  collect_adds_spec c x0 x1 f
+
+/-- **Conservation under every interleaving.** At every point of every interleaving of any pool of calls,
+for every collector `t` (anonymous or a user) and every counter `f`:
+  (values handed out so far by resetting snapshots) + (current value of the counter) + (adds of started or
+  not yet started Collect* calls still to be applied)  =  everything the pool records for `(t, f)`
+modulo 2^64, and exactly when that total is below 2^64. Nothing is dropped, nothing is counted twice,
+whatever the schedule; in particular a `Swap(0)` racing with an `Add` loses nothing. -/
+theorem conservation (ops : List Op) (cfg : Config) (hr : Reach (initCfg ops) cfg) (t : Target) (f : Field) :
+    (sumOver (Thread.got t f) cfg.threads + (cfg.sh.ctr t).get f + sumOver (Thread.pend t f) cfg.threads) % M
+        = recorded t f ops % M ∧
+    sumOver (Thread.got t f) cfg.threads + (cfg.sh.ctr t).get f + sumOver (Thread.pend t f) cfg.threads
+        ≤ recorded t f ops ∧
+    (recorded t f ops < M →
+      sumOver (Thread.got t f) cfg.threads + (cfg.sh.ctr t).get f + sumOver (Thread.pend t f) cfg.threads
+        = recorded t f ops) := by
+  have h := (reach_ok hr (initCfg_WF ops)).2 t f
+  rw [mass_init] at h
+  simp only [mass] at h
+  refine ⟨h.1, h.2, fun hlt => ?_⟩
+  have h1 := h.1
+  have h2 := h.2
+  simp only [M] at h1 hlt
+  omega
+
+example : Reach (initCfg [.collect .tcp "alice" 10 20, .snapshot true]) (initCfg [.collect .tcp "alice" 10 20, .snapshot true]) :=
+  Reach.refl _
+
+/-- **Conservation at quiescence.** When every call of the pool has returned — after ANY interleaving —
+the figures returned by all SnapshotAndReset calls for `(t, f)`, summed, plus the value still in the counter
+(which is what a final Snapshot reads, see `final_snapshot_reads_counters`) equal everything recorded for
+`(t, f)`: per user, for the anonymous user, and hence for the totals. -/
+theorem conservation_quiescent (ops : List Op) (cfg : Config) (hr : Reach (initCfg ops) cfg)
+    (hfin : ∀ th ∈ cfg.threads, th.finished) (t : Target) (f : Field) :
+    (sumOver (returnedByReset t f) cfg.threads + (cfg.sh.ctr t).get f) % M = recorded t f ops % M ∧
+    (recorded t f ops < M → sumOver (returnedByReset t f) cfg.threads + (cfg.sh.ctr t).get f = recorded t f ops) := by
+  have hwf := (reach_ok hr (initCfg_WF ops)).1
+  have hs := sum_finished cfg.threads hwf hfin t f
+  have hc := conservation ops cfg hr t f
+  rw [hs.1, hs.2] at hc
+  simpa using ⟨hc.1, hc.2.2⟩
+
+example : ∀ th ∈ (initCfg []).threads, th.finished := by simp [initCfg]
+
+/-- **Server totals = anonymous + Σ users, in every snapshot, under concurrency.** In every reachable
+configuration, every Snapshot / SnapshotAndReset thread that has left its first phase has
+`s.Traffic = Σ (Traffic values it obtained: the anonymous collector's, then one per listed user)` modulo 2^64
+(and exactly, when the sum fits). This is a statement about the values the snapshot READ: under concurrency
+they are not one consistent cut of the counters (each was read at its own instant); at quiescence they are the
+counters themselves (`final_snapshot_reads_counters`). -/
+theorem total_is_sum (ops : List Op) (cfg : Config) (hr : Reach (initCfg ops) cfg) (s : SnapTh)
+    (hs : Thread.snap s ∈ cfg.threads) (hph : s.phase ≠ .anon) (f : Field) :
+    s.total.get f % M = sumAll f s.done % M ∧ s.total.get f ≤ sumAll f s.done ∧
+    (sumAll f s.done < M → s.total.get f = sumAll f s.done) := by
+  have h := reach_inv Thread.TotalOK thread_step_total hr (initCfg_total ops) _ hs
+  have h' := h.2 f hph
+  refine ⟨h'.1, h'.2, fun hlt => ?_⟩
+  have h1 := h'.1
+  have h2 := h'.2
+  simp only [M] at h1 hlt
+  omega
+
+/-- **Attribution.** In every reachable configuration, an atomic step of a Collect* thread for username `u`
+changes no collector other than `serverCollector.trafficCollector(u)`; the empty username selects the
+anonymous collector, every other name the collector of exactly that name. (How much it adds to its own
+collector is `collect_effect`; that it ends up in that user's snapshot figures is `conservation`, which is
+stated per collector.) -/
+theorem attribution (ops : List Op) (cfg : Config) (hr : Reach (initCfg ops) cfg) (c c' : CollectTh)
+    (hc : Thread.collect c ∈ cfg.threads) (sh' : Shared) (hstep : c.step cfg.sh = some (sh', c')) :
+    (∀ t, t ≠ target c.u → sh'.ctr t = cfg.sh.ctr t) ∧
+    target "" = .anon ∧ (∀ u : String, u ≠ "" → target u = .user u) := by
+  have hwf := (reach_ok hr (initCfg_WF ops)).1 _ hc
+  have hown : (Thread.collect c).OwnTarget := by
+    have hP : ∀ th ∈ cfg.threads, th.WF ∧ th.OwnTarget := by
+      refine reach_inv (fun th => th.WF ∧ th.OwnTarget) ?_ hr ?_
+      · intro order sh sh2 th th' hp hst
+        exact ⟨(thread_step_ok order sh sh2 th th' hp.1 hst).1, thread_step_own order sh sh2 th th' hp.1 hp.2 hst⟩
+      · intro th hth
+        refine ⟨initCfg_WF ops th hth, ?_⟩
+        simp only [initCfg, List.mem_map] at hth
+        obtain ⟨op, _, rfl⟩ := hth
+        cases op <;> simp [Op.thread, Thread.OwnTarget, mkCollect]
+    exact (hP _ hc).2
+  have h := collect_step_ok cfg.sh sh' c c' hwf hstep
+  refine ⟨fun t ht => h.2.2.2.1 t (by rw [hown]; exact ht), ?_, ?_⟩
+  · simp [target, anonymousUsername]
+  · intro u hu; simp [target, anonymousUsername, hu]
+
+/-- **A Snapshot at quiescence reads the counters.** Started on shared state `sh` with no other thread
+running, a Snapshot — whatever order `range sc.ucs` yields — leaves every counter unchanged and, once finished,
+has obtained for the anonymous collector and for EVERY existing user collector exactly the current counter
+values. Together with `conservation_quiescent`: Σ (figures returned by all SnapshotAndReset calls) + (figures of
+a final Snapshot) = everything recorded, per user, for the anonymous user, and (by `total_is_sum`) for the
+server totals. -/
+theorem final_snapshot_reads_counters (sh : Shared) (cfg : Config)
+    (hr : Reach ⟨sh, [.snap (mkSnap false)]⟩ cfg) (s : SnapTh) (hth : cfg.threads = [.snap s])
+    (hfin : s.phase = .finished) :
+    cfg.sh.ctr = sh.ctr ∧
+    (∀ e ∈ s.done, ∀ f, e.2.get f = (sh.ctr e.1).get f) ∧
+    Target.anon ∈ s.done.map Prod.fst ∧ (∀ u ∈ sh.names, Target.user u ∈ s.done.map Prod.fst) := by
+  obtain ⟨s', hth', hl⟩ := lone_reach sh hr
+  rw [hth] at hth'
+  simp only [List.cons.injEq, Thread.snap.injEq, and_true] at hth'
+  subst hth'
+  have hc := hl.cover
+  simp only [Cover, hfin, targets] at hc
+  exact ⟨hl.ctr, hl.done, hc.1, hc.2⟩
+
+/-- the hypotheses are satisfiable: the driver's sequential run is such a run and it finishes -/
+example : ∃ cfg s, Reach ⟨Shared.init, [.snap (mkSnap false)]⟩ cfg ∧ cfg.threads = [.snap s] ∧ s.phase = .finished :=
+  ⟨_, _, runSnap_reach 12 Shared.init (mkSnap false), rfl, by decide⟩
+
+/-- The sequential execution used by the driver (and compared with the real collector by corr_c14) is a run of
+the interleaving semantics the theorems above quantify over. -/
+theorem driver_run_is_interleaving (n : Nat) (sh : Shared) (reset : Bool) :
+    Reach ⟨sh, [.snap (mkSnap reset)]⟩ ⟨(runSnap n sh (mkSnap reset)).1, [.snap (runSnap n sh (mkSnap reset)).2]⟩ :=
+  runSnap_reach n sh (mkSnap reset)
+
+/-! ### API projections -/
+
+/-- JSON member names of the six figures, as the SSM API documents them -/
+def specJSONName : Field → String
+  | .downlinkPackets => "downlinkPackets"
+  | .downlinkBytes => "downlinkBytes"
+  | .uplinkPackets => "uplinkPackets"
+  | .uplinkBytes => "uplinkBytes"
+  | .tcpSessions => "tcpSessions"
+  | .udpSessions => "udpSessions"
+
+/-- **API exactness (projection part).** `GET …/stats` encodes the snapshot it took — SnapshotAndReset exactly
+for `?clear` / `?clear=true` given once, Snapshot otherwise — every figure under its documented JSON name,
+users under "users"/"username"; `GET …/users/{u}` shows the figures of the entry named `u` of a Snapshot
+(zero figures if there is none), NOT the server totals. The last conjunct is false of the pinned tree
+(finding F10: `Gen.getUserProjection = .serverTotals`) and true after proposed_fixes/F10.diff. -/
+theorem api_exact :
+    (∀ f : Field, f.jsonName = specJSONName f) ∧ usersJSONName = "users" ∧ usernameJSONName = "username" ∧
+    (∀ vals : List String, statsClear vals = true ↔ (vals = [""] ∨ vals = ["true"])) ∧
+    (∀ sh vals, apiStats sh vals = doSnapshot sh (statsClear vals)) ∧
+    (∀ (r : Result) (u : String), projectUser r u = lookupUser r.users u) := by
+  refine ⟨fun f => by cases f <;> rfl, rfl, rfl, ?_, fun _ _ => rfl, ?_⟩
+  · intro vals
+    match vals with
+    | [] => simp [statsClear]
+    | [v] => simp [statsClear, statsClearValues]
+    | _ :: _ :: _ => simp [statsClear]
+  · intro r u
+    simp [projectUser, getUserProjection]
+
+/-- `lookupUser` returns the figures of the entry named `u` when the names in the list are distinct
+(they are: one entry per key of `sc.ucs`), and zero figures when no entry is named `u`. -/
+theorem lookupUser_exact (users : List (String × Counters)) (u : String) :
+    (∀ c, users.Pairwise (fun a b => a.1 ≠ b.1) → (u, c) ∈ users → lookupUser users u = c) ∧
+    ((∀ e ∈ users, e.1 ≠ u) → ∀ f, (lookupUser users u).get f = 0) := by
+  refine ⟨?_, ?_⟩
+  · intro c hpw hmem
+    induction users with
+    | nil => simp at hmem
+    | cons e r ih =>
+      simp only [List.pairwise_cons] at hpw
+      simp only [List.mem_cons] at hmem
+      rcases hmem with rfl | hmem
+      · simp [lookupUser, List.find?]
+      · have hne : e.1 ≠ u := hpw.1 (u, c) hmem
+        have := ih hpw.2 hmem
+        simp only [lookupUser, List.find?] at this ⊢
+        have hb : (e.1 == u) = false := by simpa using hne
+        simp only [hb]
+        exact this
+  · intro hall f
+    have : users.find? (fun e => e.1 == u) = none := by
+      simp only [List.find?_eq_none]
+      intro e he; simpa using hall e he
+    simp [lookupUser, this]
+
+example : [("alice", Counters.zero)].Pairwise (fun a b => a.1 ≠ b.1) := by simp
 
 end SSV.C14
 
-#print axioms SSV.C14.api_user_projection
+#print axioms SSV.C14.gen_ok
+#print axioms SSV.C14.collect_effect
+#print axioms SSV.C14.conservation
+#print axioms SSV.C14.conservation_quiescent
+#print axioms SSV.C14.total_is_sum
+#print axioms SSV.C14.attribution
+#print axioms SSV.C14.final_snapshot_reads_counters
+#print axioms SSV.C14.driver_run_is_interleaving
+#print axioms SSV.C14.api_exact
+#print axioms SSV.C14.lookupUser_exact
